@@ -4,14 +4,14 @@ import subprocess
 from .lib import *
 from . import C06
 
-RULE = ("model-driven, typestate-pruned enumeration of call histories: for each of 21 request configurations (every standard method, both "
+RULE = ("model-driven, typestate-pruned enumeration of call histories: for each of 24 request configurations (every standard method, both "
         "versions, with/without Expect, with/without send-body-despite-method, framing headers) the histories over the per-state menu "
         "of permitted calls (writes with small/large buffers, server behaviours: interim 100, partial input, rejection with/without "
         "fields, garbage, every body framing, redirects with/without Location, premature advance attempts, read-only queries) are "
         "extended breadth-first, the model telling which state each history is in; frontier capped by seeded sampling (quick: depth 9, "
         "cap 900 per depth and configuration group; thorough: depth 12, cap 6000). Every history is then replayed on the implementation. "
         "oracle = documented state graph + readiness<=>advancing, computed from the script alone. non-trivial = history reaches at least "
-        "RecvResponse; distinct = distinct op lists. The single-call API (Call: write, into_receive, try_response, into_body, read, ...) is enumerated "
+        "RecvResponse; distinct = distinct op lists. Deterministic walks through a followed redirect into the second hop for every valid configuration. The single-call API (Call: write, into_receive, try_response, into_body, read, ...) is enumerated "
         "the same way over 7 configurations (oracle there: no panic; comparison with the model)")
 TRUSTED_BASE = COMMON_TRUSTED_BASE
 ASSUMPTIONS = ["histories start at Flow::new; at most a handful of added headers (the 64-entry limit of added headers is outside the property)",
@@ -32,6 +32,9 @@ CONFIGS = [
     # only on request, the handshake on HTTP/1.0
     ("POST", "1.1", [("content-length", "0")], False), ("TRACE", "1.1", [], True), ("CONNECT", "1.1", [("content-length", "2")], True),
     ("POST", "1.0", [("expect", "100-continue"), ("content-length", "2")], False), ("HEAD", "1.1", [("content-length", "0")], True),
+    # a body-less method that declares an empty body (refused by analysis: the flow must stay put, not advance into a panic), and a
+    # body-less method with a declared body sent on request (its redirects retain the method)
+    ("GET", "1.1", [("content-length", "0")], False), ("DELETE", "1.1", [("content-length", "0")], False), ("GET", "1.1", [("content-length", "2")], True),
 ]
 
 R100 = b"HTTP/1.1 100 Continue\r\n\r\n"
@@ -203,6 +206,30 @@ def enumerate_call_histories(rng, depth, cap):
     return results
 
 
+def second_hop_walks():
+    """Deterministic walks through a redirect into the second hop (beyond the depth of the quick enumeration): every configuration
+    whose request is valid, answered by a redirect, followed, and the new flow driven to its response."""
+    out = []
+    for ci, (method, version, headers, despite) in enumerate(CONFIGS):
+        if any(k == "transfer-encoding" for k, v in headers) or (not despite and method not in BODY_METHODS and any(k == "content-length" for k, v in headers)):
+            continue
+        expect = any(k == "expect" for k, v in headers)
+        body_due = method in BODY_METHODS or despite
+        for rk in ("redir", "redir-body", "307"):
+            ops = [op_new(method, version, "http", "a.test", "/p", headers)] + (["despite"] if despite else []) + ["proceed", "write_head #100000", "proceed"]
+            if body_due and expect:
+                ops += ["raw_try100 %s" % hx(R100), "proceed"]
+            if body_due:
+                ops += ["write_body %s #100" % hx(b"hi"), "write_body x #100", "q_can_proceed", "proceed"]
+            ops += ["raw_try_response %s" % hx(RESPONSES[rk]), "proceed"]
+            if rk == "redir-body" and method != "HEAD":
+                ops += ["raw_read %s #100" % hx(b"abc"), "proceed"]
+            ops += ["as_new_flow never", "follow", "q_method", "proceed", "write_head #100000", "q_can_proceed", "proceed",
+                    "raw_try_response %s" % hx(RESPONSES["len0"]), "proceed", "q_must_close"]
+            out.append({"ops": ops, "meta": {"config": ci, "walk": True}})
+    return out
+
+
 def generate(rng, tier, mult):
     depth, cap = (9, 900) if tier == "quick" else (12, 6000)
     hist = enumerate_histories(rng, depth, cap * mult)
@@ -213,6 +240,7 @@ def generate(rng, tier, mult):
     for ci, ops in enumerate_call_histories(rng, cdepth, ccap * mult):
         out.append({"ops": ops, "meta": {"config": ci, "api": "call"}})
     _stats["call_api_histories"] = sum(1 for s in out if s["meta"].get("api") == "call")
+    out += second_hop_walks()
     return out
 
 
@@ -287,6 +315,7 @@ def oracle(script, obs):
                 sized = int(v)
     accounted = 0
     must_finish = False
+    hops = 0
     for i, (op, o) in enumerate(zip(ops, obs)):
         p = op.split(" ")
         if o == "panic":
@@ -334,7 +363,11 @@ def oracle(script, obs):
             n_some += 1
         if p[0] == "as_new_flow" and o == "some":
             took_flow = True
+        if p[0] == "write_head" and hops > 0 and tag == "SendRequest" and o.startswith("err") and not o.startswith("err OutputOverflow") \
+                and not any(k == "transfer-encoding" for k, v in headers):
+            return ["op %d: the flow handed out by as_new_flow (hop %d) cannot write its request head: %s -- it is not usable in its new state" % (i, hops, o)]
         if p[0] == "follow" and o == "ok":
+            hops += 1
             tag = "Prepare"
             took_flow = False
             if cur_method not in ("GET", "HEAD"):
